@@ -221,6 +221,8 @@ class RawServer(P.Server):
     def script(self, c):
         for ch in self.chunks:
             yield ('send', ch, 'raw')
+        if getattr(self, 'then_abort', False):
+            yield ('reset_known',)      # abortive close that the tool's sending side sees at once; the bytes above stay readable
         while True:
             yield ('packet',)
 
@@ -275,6 +277,55 @@ def work_framing(chunk, st):
             if t != payload[0] or back != payload[1:]:
                 st.violation('framing:own-reader-does-not-read-back', {'payload_len': n, 'type': t, 'got_len': len(back)})
     st.sample({'payload_lengths': [chunk[0], chunk[-1]]}, cap=4)
+
+
+def read_stream_by_tool(chunks, npackets):
+    """the tool's reader over a byte stream delivered in the given segments: -> list of (type, payload)"""
+    srv = RawServer(list(chunks))
+    w = H.world_for(srv)
+    vnet.set_world(w)
+    s = SSH_Socket(OutputBuffer(), H.HOST, 22, timeout=1)
+    s.connect()
+    out = []
+    try:
+        for _ in range(npackets):
+            out.append(s.read_packet(2))
+    except SystemExit:
+        out.append(('exit', b''))
+    finally:
+        s.close()
+    return out
+
+
+def stream_tasks(tier):
+    # (length of first payload, length of second payload); large ones straddle the reader's 2048-byte receive size
+    small = [(a, b) for a in (1, 2, 5, 11, 12, 13, 20) for b in (1, 7)]
+    large = [(a, 9) for a in list(range(2028, 2052)) + list(range(4076, 4100)) + ([] if tier == 'quick' else list(range(6120, 6150)))]
+    return small + large
+
+
+def work_stream(chunk, st):
+    for a, b in chunk:
+        p1 = bytes((i * 5 + a) & 0xff for i in range(a))
+        p2 = bytes((i * 3 + b) & 0xff for i in range(b))
+        d1, d2 = framed_by_tool(p1), framed_by_tool(p2)
+        data = d1 + d2
+        want = [(p1[0], p1[1:]), (p2[0], p2[1:])]
+        if a <= 20:
+            cuts = [[data[:c], data[c:]] for c in range(1, len(data))] + [[bytes([x]) for x in data]] + \
+                   [[data[:c], data[c:c + 1], data[c + 1:]] for c in range(1, len(data) - 1)]
+        else:
+            cuts = [[data]] + [[data[:c], data[c:]] for c in range(len(d1) - 12, len(d1) + 6)]
+        for segs in cuts:
+            got = read_stream_by_tool(segs, 2)
+            st.execution(None, outcome=('stream', len(segs) if len(segs) < 4 else 'bytes'), root=('stream', a, b, tuple(len(x) for x in segs[:3]), len(segs)),
+                         nontrivial=('stream', a, b, tuple(len(x) for x in segs[:3]), len(segs)))
+            if got != want:
+                where = 'one-segment' if len(segs) == 1 else 'one-byte-segments' if len(segs) > 3 else \
+                    ('cut-in-padding-of-first' if len(d1) - (d1[4]) <= len(segs[0]) < len(d1) else 'cut-elsewhere')
+                st.violation('stream:own-reader-loses-framing:%s' % where, {'payload_lens': [a, b], 'segment_lens': [len(x) for x in segs[:6]],
+                                                                            'got_types': [str(t) for t, _p in got]})
+    st.sample({'two_packet_streams': [list(x) for x in chunk[:2]]}, cap=4)
 
 
 def check_ssh1(st):
@@ -590,6 +641,7 @@ def run(tier, seed):
     par.pmap(work_fault_traffic, fault_traffic_tasks(tier), stats=st)
     L = 1024 if tier == 'quick' else 4096
     par.pmap(work_framing, list(range(0, L + 1)), stats=st)
+    par.pmap(work_stream, stream_tasks(tier), stats=st, chunk=2)
     validated = real_traffic(st)
     # supplementary (not deciding): seeded random big integers
     import random
